@@ -99,7 +99,7 @@ OnEncode(ev) ==
   LET guarded == ev.x = "rand" /\ hdr.b # 2     \* hdr.b = 2 marks unguarded (out-of-domain) generators
       v == If(ev.oc = "panic", V("C08", "ProducerPanic", ev))
            \cup If(ev.flag = 0, V("C15", "InputModified", ev))
-           \cup If(ev.oc = "error" /\ ev.x = "rand" /\ hdr.b = 0, Vs(RTProps, "ValidInputRefused", ev))
+           \cup If(ev.oc = "error" /\ hdr.b = 0, Vs(RTProps, "ValidInputRefused", ev))    \* mode 0: every input is inside the domain
   IN /\ lastIn' = ev.in
      /\ lastEnc' = ev.oc
      /\ ladder' = <<>>
